@@ -58,8 +58,8 @@ PROPS["C11"] = {
          "params": {"quick": {"N": 26, "MAXCELLS": 1}, "thorough": {"N": 52, "MAXCELLS": 2}}},
         {"name": "receive_scan", "pkg": "region", "entry": "VerifReceiveScan", "stubs": RECV_STUBS, "reach": ["answered", "left-registered"],
          "params": {"quick": {"N": 26, "MAXCELLS": 1}, "thorough": {"N": 52, "MAXCELLS": 2}}},
-        {"name": "decompress_arbitrary", "pkg": "region", "entry": "VerifDecompressArbitrary", "reach": ["accepted"],
-         "params": {"quick": {"ENC": 2, "N": 14}, "thorough": {"ENC": 2, "N": 24}}},
+        {"name": "decompress_arbitrary", "timeout_s": {"quick": 600, "thorough": 2400}, "pkg": "region", "entry": "VerifDecompressArbitrary", "reach": ["accepted"],
+         "params": {"quick": {"ENC": 2, "N": 14}, "thorough": {"ENC": 2, "N": 18}}},
         {"name": "odd_scan_responses", "steps": 60000, "pkg": "root", "entry": "VerifOddScanResponses", "reach": ["ended"],
          "params": {"quick": {"RESP": 1, "NROWS": 2}, "thorough": {"RESP": 2, "NROWS": 2}}},
         {"name": "parse_region_info", "pkg": "region", "entry": "VerifParseRegionInfo", "stubs": RECV_STUBS, "reach": ["parsed"],
@@ -105,8 +105,8 @@ PROPS["C15"] = {
          "params": {"quick": {"CHUNK": 16, "ENC": 2, "BUFS": 2, "S": 3}, "thorough": {"CHUNK": 6, "ENC": 3, "BUFS": 3, "S": 4}}},
         {"name": "decompress_conforming", "pkg": "region", "entry": "VerifDecompressConforming", "reach": ["conforming", "truncated"],
          "params": {"quick": {"CHUNK": 1, "ENC": 2, "B": 2, "C": 1, "S": 2}, "thorough": {"CHUNK": 1, "ENC": 3, "B": 2, "C": 2, "S": 2}}},
-        {"name": "decompress_arbitrary", "pkg": "region", "entry": "VerifDecompressArbitrary", "reach": ["accepted"],
-         "params": {"quick": {"ENC": 2, "N": 14}, "thorough": {"ENC": 2, "N": 24}}},
+        {"name": "decompress_arbitrary", "timeout_s": {"quick": 600, "thorough": 2400}, "pkg": "region", "entry": "VerifDecompressArbitrary", "reach": ["accepted"],
+         "params": {"quick": {"ENC": 2, "N": 14}, "thorough": {"ENC": 2, "N": 18}}},
     ],
 }
 
@@ -311,7 +311,7 @@ PROPS["C05"] = {
                "writev atomicity for TCP sockets; more than CALLS calls; scans and check-and-put frames (single-call path, same code)",
     "assumptions": ["proto.Size / MarshalAppend are a contract stub in the engine: fixed size, content = the message snapshot"],
     "jobs": [
-        {"name": "single_frames", "pkg": "region", "entry": "VerifSingleFrames", "stubs": FRAME_STUBS, "reach": ["frames"], "native_retries": 6,
+        {"name": "single_frames", "timeout_s": {"quick": 600, "thorough": 2400}, "pkg": "region", "entry": "VerifSingleFrames", "stubs": FRAME_STUBS, "reach": ["frames"], "native_retries": 6,
          "params": {"quick": {"CALLS": 2}, "thorough": {"CALLS": 3}}},
         {"name": "multi_frame", "pkg": "region", "entry": "VerifMultiFrame", "stubs": FRAME_STUBS, "reach": ["multi"], "native_retries": 10,
          "params": {"quick": {"CALLS": 3}, "thorough": {"CALLS": 4}}},
